@@ -560,6 +560,11 @@ def sphdist(ra1, dec1, ra2, dec2, units=["deg", "deg"]):
 
     units_in, units_out = units
 
+    ra1 = np.atleast_1d(ra1)
+    dec1 = np.atleast_1d(dec1)
+    ra2 = np.atleast_1d(ra2)
+    dec2 = np.atleast_1d(dec2)
+
     # note x,y,z from eq2xyz always returns 8-byte float
     x1, y1, z1 = eq2xyz(ra1, dec1, units=units_in)
     x2, y2, z2 = eq2xyz(ra2, dec2, units=units_in)
@@ -568,7 +573,11 @@ def sphdist(ra1, dec1, ra2, dec2, units=["deg", "deg"]):
     dis = 2*np.arcsin(0.5*np.sqrt(dsq))
     w = dsq >= 3.99
     if np.any(w):
-        cross = np.cross(np.array([x1, y1, z1])[w], np.array([x2, y2, z2])[w])
+        cross = np.cross(
+            np.array([x1[w], y1[w], z1[w]]),
+            np.array([x2[w], y2[w], z2[w]]),
+            axis=0,
+        )
         crosssq = cross[0]**2 + cross[1]**2 + cross[2]**2
         dis[w] = np.pi - np.arcsin(np.sqrt(crosssq))
 
